@@ -148,6 +148,10 @@ structure Params where
   escPrintable : List UInt8 → List Char
   /-- `Escaper::has_unprintable` -/
   hasUnprintable : List UInt8 → Bool
+  /-- `char::is_whitespace` (std), used by `ends_like_modifier` -/
+  isSpaceStd : Char → Bool
+  /-- `String::from_utf8_lossy` -/
+  lossy : List UInt8 → List Char
 
 /-- an `Expectation` as `unmake()` shows it -/
 structure Expectation where
@@ -185,14 +189,61 @@ def quantOpt (optional multiline : Bool) : Option Char :=
 
 def quantStr (optional multiline : Bool) : List Char := (quantOpt optional multiline).toList
 
+/-- `text.rfind('(')`: the text before and after the last `(` -/
+def splitLast : List Char → Option (List Char × List Char)
+  | [] => none
+  | c :: cs =>
+    match splitLast cs with
+    | some (b, a) => some (c :: b, a)
+    | none => if c = '(' then some ([], cs) else none
+
+def isLowerDash (c : Char) : Bool := ('a' ≤ c && c ≤ 'z') || c == '-'
+
+/-- `inner.strip_suffix(['*', '+', '?']).unwrap_or(inner)` on the reversed text -/
+def stripQuantRev : List Char → List Char
+  | [] => []
+  | q :: r => if isQuantChar q then r else q :: r
+
+/-- `ends_like_modifier` (src/rules/rule.rs): white space, then a parenthesised word of lower-case
+    letters and dashes (possibly empty) with at most one quantifier, at the end of the text -/
+def endsLikeModifier (isSpace : Char → Bool) (t : List Char) : Bool :=
+  match splitLast t with
+  | none => false
+  | some (before, after) =>
+    match after.reverse with
+    | [] => false
+    | c :: innerRev =>
+      if c = ')' then
+        (match before.reverse with
+          | [] => false
+          | w :: _ => isSpace w) && (stripQuantRev innerRev).all isLowerDash
+      else false
+
+/-- `rendered.replace('\\', "\\\\")` -/
+def doubleBackslash (t : List Char) : List Char :=
+  t.flatMap (fun c => if c = '\\' then ['\\', '\\'] else [c])
+
+/-- ` (escaped)` -/
+def escapedMarker : List Char := [' ', '('] ++ Kind.escaped.name ++ [')']
+
 /-- `Rule::to_expression_string` -/
 def toExpressionString (P : Params) (e : Expectation) : List Char :=
   let q := quantStr e.optional e.multiline
   let r := P.escPrintable e.expr
-  if e.kind = .equal then
-    if P.hasUnprintable e.expr then r ++ [' ', '('] ++ Kind.escaped.name ++ q ++ [')']
+  let unprintable := P.hasUnprintable e.expr
+  match e.kind with
+  | .equal =>
+    if unprintable then r ++ [' ', '('] ++ Kind.escaped.name ++ q ++ [')']
+    else if q = [] ∧ endsLikeModifier P.isSpaceStd r = true then r ++ [' ', '('] ++ Kind.equal.name ++ [')']
     else if q = [] then r else r ++ [' ', '('] ++ q ++ [')']
-  else r ++ [' ', '('] ++ e.kind.name ++ q ++ [')']
+  | .escaped =>
+    if unprintable then r ++ [' ', '('] ++ Kind.escaped.name ++ q ++ [')']
+    else doubleBackslash r ++ [' ', '('] ++ Kind.escaped.name ++ q ++ [')']
+  | .glob =>
+    if unprintable then r ++ escapedMarker ++ [' ', '('] ++ Kind.glob.name ++ q ++ [')']
+    else r ++ [' ', '('] ++ Kind.glob.name ++ q ++ [')']
+  | .regex => P.lossy e.expr ++ [' ', '('] ++ Kind.regex.name ++ q ++ [')']
+  | .noEol => P.lossy e.expr ++ [' ', '('] ++ Kind.noEol.name ++ q ++ [')']
 
 /-- Unicode `White_Space` (what `\s` means in the regex crate); sampled against the crate by the harness -/
 def unicodeWhite (c : Char) : Bool :=
@@ -212,8 +263,25 @@ def Modifier (isWhite : Char → Bool) (l p K : List Char) (Q : Option Char) : P
 /-- the kind an (optional) kind text stands for: nothing means `equal` -/
 def orEqual (K : List Char) : List Char := if K = [] then equalName else K
 
-/-- decidable guard: the text itself ends in a modifier -/
+/-- the text itself ends in a modifier -/
 def ModifierShaped (isWhite : Char → Bool) (t : List Char) : Bool := (modifierOf isWhite t).isSome
+
+/-- the kind under which the canonical form is read back: an `equal` expectation with unprintable
+    content is written as `escaped` -/
+def sourceKind (P : Params) (e : Expectation) : Kind :=
+  if e.kind = .equal ∧ P.hasUnprintable e.expr = true then .escaped else e.kind
+
+/-- the expression text in front of the modifier of the canonical form -/
+def sourceText (P : Params) (e : Expectation) : List Char :=
+  match e.kind with
+  | .equal => P.escPrintable e.expr
+  | .escaped => if P.hasUnprintable e.expr then P.escPrintable e.expr else doubleBackslash (P.escPrintable e.expr)
+  | .glob => if P.hasUnprintable e.expr then P.escPrintable e.expr ++ escapedMarker else P.escPrintable e.expr
+  | .regex => P.lossy e.expr
+  | .noEol => P.lossy e.expr
+
+/-- what the canonical form of `e` is expected to read back as -/
+def reread (P : Params) (e : Expectation) : Expectation := { e with kind := sourceKind P e }
 
 def Expectation.matches (ruleMatches : Kind → List UInt8 → List UInt8 → Bool) (e : Expectation) (line : List UInt8) : Bool :=
   ruleMatches e.kind e.expr line
